@@ -66,6 +66,9 @@ func runEngineA(p *Prog, o *obls) {
 
 // packetParams returns the closure's parameters that denote the packet: writers (header, payload) / (pkts); readers (b).
 func packetParams(c *PktClosure) []*ssa.Parameter {
+	if c.Pkt != nil {
+		return c.Pkt
+	}
 	ps := c.Fn.Params
 	switch c.Kind {
 	case RTPWriter:
@@ -206,12 +209,78 @@ func a1Writer(p *Prog, o *obls, c *PktClosure, key string) {
 		o.bad("A1", key, pos, "writer closure does not capture the downstream writer: every packet is dropped or diverted")
 		return
 	}
+	problems, nID, injections, nRet := a1Core(p, c)
+	if len(problems) > 0 {
+		o.bad("A1", key, pos, strings.Join(problems, "; "))
+		return
+	}
+	o.ok("A1", key, pos, fmt.Sprintf("%d identity forward site(s), %d injection site(s), %d return(s): exactly one forward or a content-independent reject on every path", nID, injections, nRet))
+}
+
+// helperForward: the call hands the downstream writer and the caller's packet, unchanged, to a repository function
+// that itself forwards exactly once on every path and returns the downstream error (checked recursively).
+func helperForward(p *Prog, c *PktClosure, call *ssa.Call) (isHelper bool, problems []string) {
+	g := call.Call.StaticCallee()
+	if g == nil || !p.InUniverse(g) || g.Blocks == nil || c.depth >= 2 {
+		return false, nil
+	}
+	params := packetParams(c)
+	var next *ssa.Parameter
+	pkt := make([]*ssa.Parameter, len(params))
+	for i, a := range call.Call.Args {
+		if i >= len(g.Params) {
+			break
+		}
+		if p.isNextValue(c, a) {
+			next = g.Params[i]
+		}
+		for j, pp := range params {
+			if p.originFullSlice(a) == ssa.Value(pp) {
+				pkt[j] = g.Params[i]
+			}
+		}
+	}
+	if next == nil {
+		return false, nil
+	}
+	for _, x := range pkt {
+		if x == nil {
+			return false, nil
+		}
+	}
+	// the helper must return (…, error)
+	res := g.Signature.Results()
+	if res.Len() == 0 || !isErrorType(res.At(res.Len()-1).Type()) {
+		return true, []string{fmt.Sprintf("the helper %s called at %s receives the downstream writer but returns no error", funcKey(g), p.instrPos(call))}
+	}
+	sub := &PktClosure{Fn: g, Kind: c.Kind, Next: next, Pkt: pkt, depth: c.depth + 1}
+	pr, _, _, _ := a1Core(p, sub)
+	for i := range pr {
+		pr[i] = "in helper " + funcKey(g) + ": " + pr[i]
+	}
+	return true, pr
+}
+
+// a1Core checks the forward-exactly-once discipline of fn with respect to c.Next and the packet parameters.
+func a1Core(p *Prog, c *PktClosure) (problems []string, nID, injections, nRet int) {
 	params := packetParams(c)
 	calls := nextCalls(p, c)
 	identity := map[ssa.Instruction]bool{}
 	var idCalls []*ssa.Call
-	problems := []string{}
-	injections := 0
+	// forwards delegated to a helper function
+	instrsOf(c.Fn, func(in ssa.Instruction) {
+		call, ok := in.(*ssa.Call)
+		if !ok || call.Call.IsInvoke() {
+			return
+		}
+		if isH, pr := helperForward(p, c, call); isH {
+			problems = append(problems, pr...)
+			if len(pr) == 0 {
+				identity[call] = true
+				idCalls = append(idCalls, call)
+			}
+		}
+	})
 	for _, call := range calls {
 		args := call.Call.Args
 		allID, anyDerived := true, false
@@ -250,7 +319,6 @@ func a1Writer(p *Prog, o *obls, c *PktClosure, key string) {
 		})
 	}
 	before, _ := pathCounts(c.Fn, func(in ssa.Instruction) bool { return identity[in] })
-	nRet := 0
 	for _, b := range c.Fn.Blocks {
 		ret, ok := b.Instrs[len(b.Instrs)-1].(*ssa.Return)
 		if !ok || b == c.Fn.Recover {
@@ -304,11 +372,7 @@ func a1Writer(p *Prog, o *obls, c *PktClosure, key string) {
 	if nRet == 0 {
 		problems = append(problems, "closure has no return (never completes)")
 	}
-	if len(problems) > 0 {
-		o.bad("A1", key, pos, strings.Join(problems, "; "))
-		return
-	}
-	o.ok("A1", key, pos, fmt.Sprintf("%d identity forward site(s), %d injection site(s), %d return(s): exactly one forward or a content-independent reject on every path", len(idCalls), injections, nRet))
+	return problems, len(idCalls), injections, nRet
 }
 
 func (p *Prog) instrPosV(v ssa.Value) string {
